@@ -1,5 +1,5 @@
 import Shentu.Gen.EVM
-import Shentu.EVM.Spec
+import Shentu.Arith.Spec
 import Shentu.Proofs.EVMLemmas
 /-
   C16 (arithmetic core) — Contracts compute what the EVM specification says:
@@ -8,12 +8,12 @@ import Shentu.Proofs.EVMLemmas
   `Gen.EVM.op_X w0 w1 ..` is what the `case X:` of `vm/contract.go` `execute` leaves on top of the stack when
   the words `w0 w1 ..` are popped in that order (regenerated from the Go AST on every run, see translator/evm.go;
   `Option Nat` when the case uses a primitive that can panic or raise an error, `none` being that failure).
-  `Spec.x` is the Yellow Paper / execution-specs semantics on `BitVec 256` (Shentu/EVM/Spec.lean).
+  `Spec.x` is the Yellow Paper / execution-specs semantics on `BitVec 256` (Shentu/Arith/Spec.lean).
   Each `refines_X` holds for ALL 256-bit operands.  (Before the `fix:` commits 986ee65 / 35da036 SIGNEXTEND and BYTE
   deviated for index operands ≥ 2^64 and only had `_partial` theorems; 4014336 made EXP modular.)
 -/
 namespace Shentu.Props.C16
-open Shentu Shentu.EVM Shentu.Gen.EVM
+open Shentu Shentu.Arith Shentu.Gen.EVM
 
 theorem tie_sites : Gen.EVM.allFound = true := by decide
 
